@@ -28,8 +28,7 @@ ASSUMPTIONS = [
     "termination is decided as a bound on executed parser lines (80*len+400) on a 2% sample plus a wall-clock watchdog whose firing is INCONCLUSIVE",
     "CPython 3.12 in /venv; str input only (the API takes str)",
 ]
-REACH = [("yamlpath/yamlpath.py", 330, 944, "YAMLPath._parse_path/_expand_splats/_stringify"),
-         ]
+REACH = [("yamlpath/yamlpath.py", "_parse_path,_expand_splats,_stringify_yamlpath_segments", "YAMLPath._parse_path/_expand_splats/_stringify")]
 EXHAUSTIVE_NOTE = "all strings of length <= L over the 27-character alphabet, L given in counters.exhaustive_L"
 ALPHABET = "./[]()'\"\\ &!=^$%<>~*+-:,ab1"
 SIGNIFICANT = set(ALPHABET) - set("ab1")
